@@ -29,3 +29,24 @@ prop(
                  "Go harness, -overlay build and the add-only accessor internal/run/zz_verif_run_access.go",
                  "extraction (ExtrOcamlBasic) and ocaml/driver.ml"],
 )
+
+
+def c12_key(c, model):
+    if c["impl"] == "crash":
+        return "dist-crash"
+    return "dist-total-or-shape"
+
+
+prop(
+    id="C12",
+    stages=[dict(name="c12", pkg="c12", test="TestC12", access=[], timeout_quick=240, timeout_thorough=2400)],
+    ok_pred={"dist": "dist_ok"},
+    key=c12_key,
+    rule="api.NewDistribution driven in-process with scripted rate and random oracles: kinds none/regular/random/unknown, "
+         "intervals below/at/above 100ms incl. ragged ones, N up to 300 (thorough 3000, plus 36000 and 864000), 1-50 consecutive cycles, "
+         "time-varying rates 0..2^31, partial cycles, random sources in range/zero/huge; corpus first (pinned-refutation witness, goldens); "
+         "non-trivial = regular or random kind above 100ms with some rate not a multiple of N; distinct = distinct argument tuples",
+    assumptions=["rates below 2^62/N so that Go's int accumulator does not wrap",
+                 "the scripted random source stands for math/rand.Intn (panics on n<=0, any non-negative return value)",
+                 "extraction (ExtrOcamlBasic) and ocaml/driver.ml; Go harness and overlay build"],
+)
